@@ -119,6 +119,13 @@ func c05Accept(b []byte, rq *c05Req, fromServer bool) bool {
 		}
 		return false
 	}
+	// interleaved reply: its transmit time is that of the exchange the request continues, whose receive
+	// time the request names as its origin
+	if f.Origin != rq.f.Transmit && rq.interleaved && f.Origin == rq.f.Receive {
+		if d := int64(f.Transmit - rq.f.Origin); d < -8 {
+			return false
+		}
+	}
 	return true
 }
 
@@ -165,6 +172,14 @@ func c05HeaderMuts(rng *rand.Rand, full bool) []c05Mut {
 			f.Transmit += uint64(45*365*86400)<<32 + 1000
 		}},
 		c05Mut{name: "transmit a second before receive", hdr: func(f *peer.NTPFields, _ *c05Req) { f.Transmit = f.Receive - 1<<32 }},
+		c05Mut{name: "interleaved reply whose transmit time lies before the receive time of the exchange it belongs to", hdr: func(f *peer.NTPFields, rq *c05Req) {
+			if rq.interleaved { // in interleaved form, whatever form the genuine reply has
+				f.Origin = rq.f.Receive
+				f.Transmit = rq.f.Origin - 1<<31
+			} else {
+				f.Origin = 0 // to a basic request the datagram at this script position echoes nothing
+			}
+		}},
 		c05Mut{name: "other fields random", hdr: func(f *peer.NTPFields, _ *c05Req) {
 			f.Poll, f.Precision, f.RootDelay, f.Dispersion, f.RefID, f.Reference = int8(rng.IntN(256)), int8(rng.IntN(256)), rng.Uint32(), rng.Uint32(), rng.Uint32(), rng.Uint64()
 		}},
